@@ -19,8 +19,11 @@ type c16Conn struct {
 	closed  bool
 }
 
-func (c *c16Conn) Read(p []byte) (int, error)         { <-c.block; return 0, nil }
-func (c *c16Conn) Write(p []byte) (int, error)        { c.written = append(c.written, p...); return len(p), nil }
+func (c *c16Conn) Read(p []byte) (int, error) { <-c.block; return 0, nil }
+func (c *c16Conn) Write(p []byte) (int, error) {
+	c.written = append(c.written, p...)
+	return len(p), nil
+}
 func (c *c16Conn) Close() error                       { c.closed = true; return nil }
 func (c *c16Conn) LocalAddr() net.Addr                { return &net.TCPAddr{IP: net.IP{127, 0, 0, 1}, Port: 1} }
 func (c *c16Conn) RemoteAddr() net.Addr               { return &net.TCPAddr{IP: net.IP{127, 0, 0, 1}, Port: 2} }
